@@ -476,9 +476,9 @@ pub fn check(e: &Engine) {
 	e.explore(
 		"real-sources",
 		LegOpts::realtime(
-			e.tier.pick(64, 1_500),
+			e.tier.pick(96, 1_500),
 			16,
-			"a separate probe process (library Watchexec with the real signal and keyboard sources) receives 1-8 generated steps: OS signals HUP/INT/QUIT/TERM/USR1/USR2 (the same kind never twice within 300 ms: standard signals do not queue), bytes on stdin, stdin closed; throttle 0/20/120 ms, keyboard source on or off and switched 0-3 times at run time before the steps, a filter rejecting a generated subset of signal kinds: every sent signal appears in exactly one handler event unless the (recording) filter returned a rejection for it, then in none, closing stdin gives exactly one keyboard-EOF event iff the keyboard source is on, typed bytes give none, no empty batch, the probe stays alive; non-trivial = >=2 signals or an EOF",
+			"a separate probe process (library Watchexec with the real signal and keyboard sources) receives 1-8 generated steps: OS signals HUP/INT/QUIT/TERM/USR1/USR2 (the same kind never twice within 300 ms: standard signals do not queue), bytes on stdin (a short line, text without a newline, a latin-1 line, binary with NULs and 0xFF, or one 20 KB line; typed before the close in two thirds of the closing cases), stdin closed; throttle 0/20/120 ms, keyboard source on or off and switched 0-3 times at run time before the steps, a filter rejecting a generated subset of signal kinds: every sent signal appears in exactly one handler event unless the (recording) filter returned a rejection for it, then in none, closing stdin gives exactly one keyboard-EOF event iff the keyboard source is on, typed bytes give none, no empty batch, the probe stays alive; non-trivial = >=2 signals or an EOF",
 		),
 		&super::realsrc::strategy,
 		&super::realsrc::run,
@@ -511,6 +511,7 @@ pub fn check(e: &Engine) {
 	e.require_label("identical-events", "equal-events-back-to-back", 0.5);
 	e.require_label("real-sources", "signals", 0.7);
 	e.require_label("real-sources", "keyboard-eof", 0.1);
+	e.require_label("real-sources", "keyboard-eof-after-non-utf8-input", 0.03);
 	e.require_label("ledger", "2+batches", 0.3);
 	e.require_label("ledger", "sent-while-handler-running", 0.1);
 }
